@@ -84,7 +84,9 @@ def corpus():
 
 
 def _rand_signed(rng):
-    bits = rng.choice([1, 4, 8, 16, 31, 32, 33, 64, 127, 128, 129, rng.randrange(1, 140)])
+    # 20000 bits ~ 6000 decimal digits: beyond CPython's default limit for int -> str conversion (4300 digits),
+    # which error messages formatted with %r / %d run into
+    bits = rng.choice([1, 4, 8, 16, 31, 32, 33, 64, 127, 128, 129, rng.randrange(1, 140), 20000])
     x = rng.getrandbits(bits)
     return -x if rng.random() < 0.5 else x
 
@@ -166,7 +168,7 @@ def generate(rng, tier):
     # ---- constructor
     m4, m6 = (1 << 32) - 1, (1 << 128) - 1
     xs = [-1, 0, 1, -2, m4 - 1, m4, m4 + 1, m4 + 2, -m4, -m4 - 1, m6 - 1, m6, m6 + 1, m6 + 2, -m6, -m6 - 1,
-          1 << 200, -(1 << 200), 1 << 31, 1 << 127, 1 << 64]
+          1 << 200, -(1 << 200), 1 << 31, 1 << 127, 1 << 64, 10 ** 5000, -(10 ** 5000), (1 << 20000) + 1]
     for _ in range(40 * mult):
         xs.append(_rand_signed(rng))
     for _ in range(20 * mult):
